@@ -247,15 +247,37 @@ def jsKws (R : String → PyVal → Bool) (S : String → String → Bool) (ctx 
     List (PyVal × PyVal) → PyVal → Bool
   | [], _ => true
   | (k, v) :: rest, d =>
-    kwNode S ctx (kwOf k) v d (jsV R S v)
-      (match v with | .list ss => jsZip R S ss | _ => fun _ => true)
-      (fun _ => match v with | .list ss => jsAllL R S ss d | _ => true)
-      (fun _ => match v with | .list ss => jsAnyL R S ss d | _ => true)
-      (fun _ => match v with | .list ss => jsCount R S ss d | _ => 0)
-      (match v with | .dict ps => jsProps R S ps | _ => fun _ => true)
-      (match v with | .dict ps => jsPats R S ps | _ => fun _ => true)
+    kwNode S ctx (kwOf k) v d (jsV R S v) (jsZipV R S v)
+      (fun _ => jsAllV R S v d) (fun _ => jsAnyV R S v d) (fun _ => jsCountV R S v d)
+      (jsPropsV R S v) (jsPatsV R S v)
     && jsKws R S ctx rest d
 termination_by structural kws _ => kws
+
+/-- the keyword value as a list of schemas / as a name → schema map -/
+def jsZipV (R : String → PyVal → Bool) (S : String → String → Bool) : PyVal → List PyVal → Bool
+  | .list ss, xs => jsZip R S ss xs
+  | _, _ => true
+termination_by structural v _ => v
+def jsAllV (R : String → PyVal → Bool) (S : String → String → Bool) : PyVal → PyVal → Bool
+  | .list ss, d => jsAllL R S ss d
+  | _, _ => true
+termination_by structural v _ => v
+def jsAnyV (R : String → PyVal → Bool) (S : String → String → Bool) : PyVal → PyVal → Bool
+  | .list ss, d => jsAnyL R S ss d
+  | _, _ => true
+termination_by structural v _ => v
+def jsCountV (R : String → PyVal → Bool) (S : String → String → Bool) : PyVal → PyVal → Nat
+  | .list ss, d => jsCount R S ss d
+  | _, _ => 0
+termination_by structural v _ => v
+def jsPropsV (R : String → PyVal → Bool) (S : String → String → Bool) : PyVal → List (PyVal × PyVal) → Bool
+  | .dict ps, kvs => jsProps R S ps kvs
+  | _, _ => true
+termination_by structural v _ => v
+def jsPatsV (R : String → PyVal → Bool) (S : String → String → Bool) : PyVal → List (PyVal × PyVal) → Bool
+  | .dict ps, kvs => jsPats R S ps kvs
+  | _, _ => true
+termination_by structural v _ => v
 
 /-- positional `items` -/
 def jsZip (R : String → PyVal → Bool) (S : String → String → Bool) : List PyVal → List PyVal → Bool
@@ -410,11 +432,18 @@ termination_by structural s => s
 def wfKws (D : Defs) (ctx : List (PyVal × PyVal)) : List (PyVal × PyVal) → Bool
   | [] => true
   | (k, v) :: rest =>
-    wfNode D ctx k v (fun _ => wfDraft4 D v)
-      (fun _ => match v with | .list ss => wfList D ss | _ => true)
-      (fun _ => match v with | .dict ps => wfProps D ps | _ => true)
+    wfNode D ctx k v (fun _ => wfDraft4 D v) (fun _ => wfListV D v) (fun _ => wfPropsV D v)
     && wfKws D ctx rest
 termination_by structural kws => kws
+
+def wfListV (D : Defs) : PyVal → Bool
+  | .list ss => wfList D ss
+  | _ => true
+termination_by structural v => v
+def wfPropsV (D : Defs) : PyVal → Bool
+  | .dict ps => wfProps D ps
+  | _ => true
+termination_by structural v => v
 
 def wfList (D : Defs) : List PyVal → Bool
   | [] => true
